@@ -66,4 +66,11 @@ instance : DecidableEq (Except Err Out) := fun a b =>
   | .ok _, .error _ => isFalse (by intro e; cases e)
   | .error _, .ok _ => isFalse (by intro e; cases e)
 
+/-- what the default format must print, written out: zero-padded calendar and clock fields of the instant, the
+millisecond TRUNCATED, the exact split of the offset -/
+def defaultSpecText (dt : Dt) : Str :=
+  fmtD0 4 dt.year ++ (['-'] ++ (fmtD0 2 dt.month ++ (['-'] ++ (fmtD0 2 dt.day ++ ([' '] ++ (fmtD0 2 dt.hour ++ ([':'] ++
+  (fmtD0 2 dt.minute ++ ([':'] ++ (fmtD0 2 dt.second ++ (['.'] ++ (fmtD0 3 (dt.microsecond / 1000) ++ ([' '] ++
+  tzSpec dt.offsetUs [':'])))))))))))))
+
 end Datetime.Spec
